@@ -90,6 +90,31 @@ fn check_unmapped(range: BitRange, lo: u32, hi: u32) {
 // grows past 45 GB (measured).  What is decided instead: the bit ranges themselves, the confidence
 // function for every input, the per-candidate heuristics, and (witness) that a candidate is reachable.
 
+/// F: minidump_processor::memory_operation::MemoryOperation::{is_possibly_allowed_for, is_allowed_for}, MinidumpMemoryInfo::{is_readable, is_writable, is_executable} through UnifiedMemoryInfo
+/// I: the region's protection word (full u32); the crashing operation (4 variants)
+/// B: one region
+/// A: the region value is built from all-zero bytes plus the protection field (its other fields are not consulted)
+/// O: a candidate region permits the crashing kind of access exactly per the Windows page-protection constants: read = READONLY|READWRITE|EXECUTE_READ|EXECUTE_READWRITE, write = READWRITE|WRITECOPY|EXECUTE_READWRITE|EXECUTE_WRITECOPY, execute = any EXECUTE*; an undetermined operation is possibly allowed everywhere and definitely allowed nowhere
+#[kani::proof]
+fn c19_q_memory_operation_permissions() {
+    let mut mi: minidump::MinidumpMemoryInfo = unsafe { std::mem::zeroed() };
+    let bits: u32 = kani::any();
+    mi.protection = minidump::format::MemoryProtection::from_bits_retain(bits);
+    let u = minidump::UnifiedMemoryInfo::Info(&mi);
+    let r = bits & (0x02 | 0x04 | 0x20 | 0x40) != 0;
+    let w = bits & (0x04 | 0x08 | 0x40 | 0x80) != 0;
+    let x = bits & (0x10 | 0x20 | 0x40 | 0x80) != 0;
+    assert!(MemoryOperation::Read.is_possibly_allowed_for(&u) == r);
+    assert!(MemoryOperation::Write.is_possibly_allowed_for(&u) == w);
+    assert!(MemoryOperation::Execute.is_possibly_allowed_for(&u) == x);
+    assert!(MemoryOperation::Undetermined.is_possibly_allowed_for(&u));
+    assert!(MemoryOperation::Read.is_allowed_for(&u) == r);
+    assert!(MemoryOperation::Write.is_allowed_for(&u) == w);
+    assert!(MemoryOperation::Execute.is_allowed_for(&u) == x);
+    assert!(!MemoryOperation::Undetermined.is_allowed_for(&u));
+    kani::cover!(r && !w, "a readable but not writable region");
+}
+
 /// F: minidump_processor::processor::bitflip::BitRange::range
 /// I: none (three variants enumerated)
 /// B: none
